@@ -145,7 +145,10 @@ def keys_initialised_from(m, cls, start_name):
                         out.add(t.slice.value)
             if isinstance(n, ast.Call) and isinstance(n.func, ast.Attribute):
                 recv = n.func.value
-                if isinstance(recv, ast.Name) and recv.id in ('self', 'result'):
+                # receiver: self, or a local holding the object under construction (bound to a super().__deepcopy__() / __new__ result)
+                fresh_locals = {t.id for a_ in walk_no_nested(fi.node) if isinstance(a_, ast.Assign) and isinstance(a_.value, ast.Call)
+                                and ('__deepcopy__' in norm(a_.value.func) or '__new__' in norm(a_.value.func)) for t in a_.targets if isinstance(t, ast.Name)}
+                if isinstance(recv, ast.Name) and (recv.id == 'self' or recv.id in fresh_locals):
                     t2 = m.lookup(cls, n.func.attr, 'methods')
                     if t2 is not None:
                         visit(t2, (t2.mod, t2.cls))
